@@ -46,6 +46,11 @@ class SimFault(Exception):
     """Injected failure of a user callback (interpreted function, simulated effect)."""
 
 
+class SimCancel(BaseException):
+    """Injected asynchronous cancellation (the kind of KeyboardInterrupt / CancelledError / SystemExit): not an
+    Exception, so `except Exception` clean-up code in the library does not see it, `finally` does."""
+
+
 class StopRun(Exception):
     """Raised by Ctx.violate to end the run at the first violated oracle."""
 
